@@ -139,3 +139,25 @@ Proof. induction ds as [|d ds IH]; intros w ws r ws' H; cbn [retry] in H; [inver
   - inversion H; subst. lia.
   - inversion H; subst. rewrite app_length. cbn [length]. lia.
   - apply IH in H. rewrite app_length in H. cbn [length] in H. destruct r; auto; lia. Qed.
+
+(* ---- the connection held after a call ---- *)
+Lemma held_exists f : forall conn next s, (conn < next)%N -> (fst (held f conn next s) < snd (held f conn next s))%N.
+Proof.
+  induction f as [|f IH]; intros conn next s H; cbn [held]; [exact H|].
+  destruct s as [|[[|] cd|r cd|ok] s1]; try exact H.
+  - destruct s1 as [|[ok2 cd2|[b|] [|]|ok2] s2]; try exact H.
+    destruct s2 as [|[ok3 cd3|r3 cd3|[|]] s3]; try exact H. apply IH. lia.
+  - destruct cd; try exact H. destruct s1 as [|[ok2 cd2|r2 cd2|[|]] s2]; try exact H. apply IH. lia.
+Qed.
+(* the operations of a call and the connection held afterwards agree: the call ends on the connection it leaves behind,
+   unless its last act was a reconnect (then it leaves the new one) *)
+Lemma held_next_bound f : forall conn next s, (snd (held f conn next s) <= next + N.of_nat (length s))%N.
+Proof.
+  induction f as [|f IH]; intros conn next s; cbn [held]; [cbn; lia|].
+  destruct s as [|[[|] cd|r cd|ok] s1]; cbn [snd length]; try lia.
+  - destruct s1 as [|[ok2 cd2|[b|] [|]|ok2] s2]; cbn [snd length]; try lia.
+    destruct s2 as [|[ok3 cd3|r3 cd3|[|]] s3]; cbn [snd length]; try lia.
+    specialize (IH next (next + 1)%N s3). lia.
+  - destruct cd; cbn [snd length]; try lia. destruct s1 as [|[ok2 cd2|r2 cd2|[|]] s2]; cbn [snd length]; try lia.
+    specialize (IH next (next + 1)%N s2). lia.
+Qed.
